@@ -688,7 +688,14 @@ func (st *verifC13State) scan() string {
 			}
 		}
 		if len(match) == 0 {
-			st.flags = append(st.flags, "scan-mismatch")
+			// no PutB is parked for this channel: its goroutine has already left PutB (sync
+			// commitBlock returns its error before the deferred close(done) has run) and is about
+			// to close it
+			select {
+			case <-ch:
+			case <-time.After(5 * time.Second):
+				st.flags = append(st.flags, "scan-mismatch")
+			}
 			st.known[ch] = true
 			continue
 		}
